@@ -25,11 +25,87 @@ CHECKS = {
             "every generated metric compared with values computed from the rows.",
             "Binary {0,1} labels, positive weights; sklearn base metrics are trusted on the per-group slices; 0/0 ratios "
             "may be NaN or skipped.", "3/C03"),
+    "C04": ("runtime oracle: expected per-group constraint metrics recomputed from _pmf_predict on the training rows; exhaustive small multisets + random/tied/adjacent scores",
+            "Exploration with an exhaustive sub-space: ThresholdOptimizer is fitted on every multiset of (group,label,score-level) "
+            "rows up to a small size and on random datasets (2..5 groups, ties, grid points on hull vertices); the expected "
+            "constraint metric per group under the fitted randomised rule must coincide across groups and lie on the grid.",
+            "Every group contains both labels (precondition of the property); finite scores; tolerance 1e-9.", "3/C04"),
+    "C05": ("runtime oracle: brute-force concave envelopes / LP over per-group threshold mixtures vs the fitted rule's expected objective",
+            "Exploration: the objective value attained by the fitted rule (from _pmf_predict on the training rows) is compared "
+            "with the optimum of the stated family computed independently (all threshold rules enumerated per group, envelope "
+            "by brute force over point pairs, cross-checked by scipy linprog on a sample).",
+            "Group sizes limited so the enumeration stays small; objective values compared (ties in the arg-max are fine).", "3/C05"),
+    "C06": ("runtime oracle: Moment.index/gamma/bound after load_data vs a probabilistic-definition reference, label-agnostic event matching",
+            "Exploration: for each generated dataset (2..4 groups, optional control strata, absent combinations) and each of "
+            "the 5 parity moments x bound types, gamma on hard and soft predictors, the index structure and bound() are "
+            "compared with the definition; BoundedGroupLoss/ErrorRate gamma vs definitions; r=1 '+' entries vs MetricFrame.",
+            "Binary labels; predictions in [0,1]; event labels are matched by fingerprints, not by their string form.", "3/C06"),
+    "C07": ("runtime oracle: linearity basis sweep (unit multipliers x unit predictors) on loaded moments + recording base learner for the relabel/reweight history",
+            "Exploration: gamma/signed_weights identity checked on a basis (covers all lambda and h by linearity, affinity "
+            "verified), loss-moment identity, project_lambda non-negativity and Lagrangian monotonicity; the (y,w) pairs "
+            "that ExponentiatedGradient/GridSearch hand to a recording learner are compared with 1[w>0], |w|.",
+            "n<=25 per dataset; reference moments from refs/moments.py.", "3/C07"),
+    "C08": ("runtime oracle: exact cost-sensitive learner over an enumerable hypothesis class + independent LP; certified gap vs true duality gap",
+            "Exploration: ExponentiatedGradient is run with an exact learner over a finite class; best_gap_ is compared with "
+            "the true duality gap of (Q, lambda-hat) recomputed by enumeration, the error and constraint-violation "
+            "consequences are checked against an independent LP optimum, weights_ validity and early-stop rule.",
+            "Finite hypothesis class containing both constants; feasibility decided by the reference LP (HiGHS).", "3/C08"),
+    "C09": ("runtime oracle: exact/recording learner + reference Lagrangian minimum per grid point; recomputed objectives/gammas/arg-min",
+            "Exploration: GridSearch fitted with an exact learner; lambda grid shape/sign/norm/distinctness, best-response "
+            "optimality per column by enumeration, recorded objectives_/gammas_ vs recomputed, arg-min selection and "
+            "predict delegation are checked.",
+            "Finite hypothesis class; both labels present in every group for the strict distinctness class.", "3/C09"),
+    "C10": ("runtime monitor: _pmf_predict / predict under many seeds + injected extreme RandomState; mixture and frequency oracles",
+            "Exploration + RNG fault injection: pmf validity, EG mixture recomputed from predictors_/weights_, thresholder "
+            "dependence on (score, group) only and monotonicity, predict label set, Hoeffding-bounded frequency test over "
+            "seeds, reproducibility, and determinism at p in {0,1} under extreme uniform draws (0.0 and 1-2^-53).",
+            "Frequency test has total false-alarm probability <= 1e-9 per run; no assumption on RNG call order.", "3/C10"),
+    "C11": ("metamorphic runtime oracle: weight k vs k copies, scaling, None vs ones - base metrics, MetricFrame cells, named fairness metrics",
+            "Exploration: each generated dataset is evaluated in the weighted form and in the row-repeated form and the "
+            "results (value and scalar/array shape) must agree, per group inside MetricFrame including single weighted rows.",
+            "Integer weights 1..5 and positive real scalings; tolerance 1e-11 relative.", "3/C11"),
+    "C12": ("metamorphic runtime oracle: same logical dataset through every container type / hostile pandas index / row permutation / label bijection",
+            "Exploration: baseline run on plain ndarrays vs variants where every argument arrives in a different container "
+            "with a different hostile index; public results of MetricFrame, fairness metrics, moments, EG, GridSearch and "
+            "ThresholdOptimizer must be identical.",
+            "X only as ndarray/DataFrame; deterministic base learners.", "3/C12"),
+    "C13": ("runtime monitor: group partition recovered through public gamma/index/interpolation_dict/_pmf_predict vs tuple-equality partition",
+            "Exploration: feature tables over alphabets with separator/escape characters built so that naive joins collide; "
+            "the partition induced by moments and ThresholdOptimizer must equal the tuple partition and MetricFrame's.",
+            "String-valued columns only; NUL/trailing-whitespace values not generated.", "3/C13"),
     "C14": ("runtime oracle: weighted confusion counting reference vs the seven base metrics over all encodings, exhaustive small vectors + random weighted",
             "Exploration with an exhaustive sub-space: all label/prediction vectors up to length 4 (quick) / 6 (thorough) "
             "under 10 encodings, plus random weighted vectors; value, scalar-ness, range, complement identities and "
             "pos_label role exchange are checked on every call.",
             "Positive finite weights; at most two label values; trusted: the counting reference.", "3/C14"),
+    "C15": ("runtime oracle: least-squares residual reference (per-column centring, lstsq, alpha blend) vs fit_transform/transform; covariance monitor",
+            "Exploration: random matrices (1..4 sensitive, 1..5 other columns, different means/scales, collinear/constant "
+            "sensitive columns, ids by position or name, alpha in {0,0.3,1}); output compared with the reference and "
+            "alpha=1 covariance with every sensitive column must vanish; transform on new data = learned affine map.",
+            "Tolerance 1e-8 x scale; rank-deficient sensitive blocks compared on training data + affinity only.", "3/C15"),
+    "C16": ("runtime monitor: parameter snapshots of harness-owned torch modules before/after one SGD step vs autograd reference of the documented update",
+            "Exploration: for random architectures/batches/alpha/lr the observed parameter change divided by lr is compared "
+            "per tensor with dLP - proj_{dLA}(dLP) - alpha*dLA (Frobenius projection), orthogonality asserted, adversary "
+            "step = plain gradient. PyTorch engine only.",
+            "TensorFlow engine not executable here (TensorFlow/Keras absent, not installable); float32 tolerances.", "3/C16"),
+    "C17": ("runtime monitor: recording torch module + recording callback -> offline trace-specification check of the batch/step/callback schedule; differential partial_fit history",
+            "Exploration: the sequence of training batches (row ids), step numbers seen by callbacks, n_iter_, early stop and "
+            "max_iter handling are checked against the documented schedule; final parameters compared with an identically "
+            "configured estimator driven through partial_fit; predict vs threshold/arg-max/raw rule.",
+            "shuffle=False; first slice contains every class (documented requirement); PyTorch engine.", "3/C17"),
+    "C18": ("runtime monitor: recording metric on id-valued data reveals every bootstrap resample's exact row multiset; structural/ordering/reproducibility oracles on *_ci",
+            "Exploration: resample composition (n rows, with replacement, from the data, differing between resamples, "
+            "identical for equal seeds) observed directly; *_ci results compared structurally with the point estimates; "
+            "quantile monotonicity; constant-metric and positive-width checks.",
+            "False-alarm probability of the 'resamples differ' check computed (<1e-12), not assumed.", "3/C18"),
+    "C19": ("runtime monitor: all call sequences up to length 3/4 over {fit(D1), fit(D2), predict, pickle, clone} vs fresh-estimator reference histories",
+            "Exploration (history enumeration): every operation sequence is executed on each estimator class and the observed "
+            "history (fit return value, get_params, model fingerprint) is compared with that of fresh estimators.",
+            "Deterministic base learners and fixed random_state; differential oracle.", "3/C19"),
+    "C20": ("runtime monitor: defect-injection matrix (entry point x argument x container x defect) recording outcome and rejecting frame",
+            "Exploration/fault enumeration over the input-defect matrix stated by the property: every cell must raise; "
+            "predict-before-fit must raise NotFittedError.",
+            "Scope of 'out-of-range bounds' = documented ranges only (ratio_bound in (0,1]).", "3/C20"),
 }
 
 PENDING_REASON = "check not built yet in this round (work in progress; the design in DESIGN.md section 3 applies)"
